@@ -52,7 +52,30 @@ impl Vm {
 
     /// Runs `src` in a fresh sandbox environment (default safe libraries) where `__probe` records
     /// `(id, type(value))` and `__c1`… are the given booleans.
+    ///
+    /// A run that ends at the instruction limit leaves frames behind in the `luars` state (after
+    /// enough of them every later run fails with a runtime error), so the VM is rebuilt after every
+    /// abnormal end, and a runtime error is only believed when a fresh VM reproduces it.
     pub fn run(&mut self, src: &str, opaque: &[bool], instruction_limit: u64) -> (Vec<(i64, &'static str)>, End) {
+        let (ev, end) = self.run_once(src, opaque, instruction_limit);
+        match end {
+            End::Done => (ev, end),
+            End::RuntimeError(_) => {
+                *self = Vm::new();
+                let r = self.run_once(src, opaque, instruction_limit);
+                if r.1 != End::Done {
+                    *self = Vm::new();
+                }
+                r
+            }
+            _ => {
+                *self = Vm::new();
+                (ev, end)
+            }
+        }
+    }
+
+    fn run_once(&mut self, src: &str, opaque: &[bool], instruction_limit: u64) -> (Vec<(i64, &'static str)>, End) {
         EVENTS.with(|e| e.borrow_mut().clear());
         let mut cfg = SandboxConfig::default().with_instruction_limit(instruction_limit).with_global("__probe", LuaValue::cfunction(probe_fn));
         for (i, b) in opaque.iter().enumerate() {
